@@ -1,7 +1,8 @@
 (* C06 - keep-sorted reports a block iff its keys are out of order.
    Property theorems only; proofs are in proofs/Keys_proofs.v. *)
 From BW Require Import SpecKeys.
-From BWP Require Import TextFacts Keys_proofs.
+From BWP Require Import TextFacts Keys_proofs F64_proofs.
+From Coq Require Import ZArith.
 
 (* No violation iff every adjacent pair of keys is in order (any number of keys;
    `viol a b` = "b is strictly out of order after a" in the chosen direction/format). *)
@@ -65,3 +66,19 @@ Print Assumptions C06_keys_trimmed.
 Theorem C06_at_most_one : forall o file b ds, keep_sorted o file b = Ok ds -> (length ds <= 1)%nat.
 Proof. exact keep_sorted_at_most_one. Qed.
 Print Assumptions C06_at_most_one.
+
+(* Under keep-sorted-format=numeric, keys compare as numbers: for all non-NaN bit patterns the comparison is the comparison of the exact (scaled) values; both zeros are equal. *)
+Theorem C06_numeric_order : forall a b, a < 2^64 -> b < 2^64 ->
+  f64_is_nan a = false -> f64_is_nan b = false ->
+  f64_cmp a b = Z.compare (sval a) (sval b).
+Proof. exact f64_cmp_is_numeric. Qed.
+Print Assumptions C06_numeric_order.
+
+Theorem C06_numeric_zeros : f64_cmp 0 two63 = Eq /\ sval 0 = 0%Z /\ sval two63 = 0%Z.
+Proof. exact f64_cmp_zeros. Qed.
+Print Assumptions C06_numeric_zeros.
+
+Theorem C06_total_order_injective : forall a b, a < 2^64 -> b < 2^64 ->
+  f64_total_key a = f64_total_key b -> a = b.
+Proof. exact f64_total_key_injective. Qed.
+Print Assumptions C06_total_order_injective.
